@@ -1,0 +1,26 @@
+//go:build verif
+
+package mfs
+
+import ipld "github.com/ipfs/go-ipld-format"
+
+// VerifSchedHook, when set, is called at every schedule point with the point's
+// name; it may block (that is how the verification harness orders goroutines).
+// Build tag "verif" only; nil by default, in which case nothing changes.
+var VerifSchedHook func(point string)
+
+func verifSched(point string) {
+	if f := VerifSchedHook; f != nil {
+		f(point)
+	}
+}
+
+// VerifRootUpdateHook, when set, observes every node that reaches
+// Root.updateChildEntry (the value handed to the republisher).
+var VerifRootUpdateHook func(nd ipld.Node)
+
+func verifRootUpdate(nd ipld.Node) {
+	if f := VerifRootUpdateHook; f != nil {
+		f(nd)
+	}
+}
